@@ -95,6 +95,17 @@ Definition addbit_guard (bitnum numbits : Z) : bool * bool :=
     let t := iwrap s - 1 in
     (negb (iwrap t >? 63), negb (intb s) || negb (intb t)).
 
+(* the same test in the shape the source has today (Gen.GuardForms.addbit_form) *)
+Definition addbit_guard_f (f : bit_form) (bitnum numbits : Z) : bool * bool :=
+  match f with
+  | BitSum => addbit_guard bitnum numbits
+  | BitSub =>
+    if numbits <? 1 then (false, false)
+    else if bitnum <? 0 then (false, false)
+    else (negb ((numbits >? 64) || (bitnum >? 64 - numbits)), false)
+  | BitUnknown => (false, false)
+  end.
+
 (* fragment index tests (fragment.c, protect.c, ...): index : int *)
 Definition fragment_guard (index nfrag : Z) : bool :=
   negb ((index <? 0) || (index >=? nfrag)).
